@@ -20,7 +20,7 @@ def overlay(sc):
     done = []
     for f in sorted(glob.glob(os.path.join(KDIR, "*.rs"))):
         name = os.path.basename(f)
-        rel = {"vanilla_internal.rs": "src/vanilla_header/internal.rs"}.get(name, "src/" + name)
+        rel = "src/" + name.replace("__", "/")
         dst = os.path.join(sc.repo, rel)
         if not os.path.exists(dst):
             raise ToolError("overlay target %s does not exist in the tree" % rel)
@@ -89,8 +89,18 @@ def parse_terse(out):
     return res
 
 
+def fq_name(h):
+    """fully qualified harness name (Kani's --harness matches substrings unless --exact is given)"""
+    if h.get("crate") == "ext":
+        return "harnesses::" + h["name"]
+    mod = h["file"][:-3].replace("__", "::")
+    if mod.endswith("::mod"):
+        mod = mod[:-5]
+    return mod + "::verif_kani::" + h["name"]
+
+
 def run_group(sc, names, stubbing, jobs, timeout, log, cwd=None, tdir="target-kani"):
-    cmd = ["cargo", "kani"]
+    cmd = ["cargo", "kani", "--exact"]
     for n in names:
         cmd += ["--harness", n]
     cmd += ["--output-format=terse"]
@@ -120,8 +130,8 @@ def run_group(sc, names, stubbing, jobs, timeout, log, cwd=None, tdir="target-ka
     return parse_terse(out), timed_out, out
 
 
-def playback(sc, name, stubbing, timeout=900, cwd=None, tdir="target-kani"):
-    cmd = ["cargo", "kani", "--harness", name, "--output-format=terse", "-Z", "concrete-playback", "--concrete-playback=print"]
+def _playback_tests(sc, name, stubbing, timeout, cwd, tdir):
+    cmd = ["cargo", "kani", "--exact", "--harness", name, "--output-format=terse", "-Z", "concrete-playback", "--concrete-playback=print"]
     if stubbing:
         cmd += ["-Z", "stubbing"]
     try:
@@ -129,14 +139,14 @@ def playback(sc, name, stubbing, timeout=900, cwd=None, tdir="target-kani"):
         env["CARGO_TARGET_DIR"] = os.path.join(CACHE, tdir)
         p = subprocess.run(cmd, cwd=cwd or sc.repo, env=env, stdout=subprocess.PIPE, stderr=subprocess.STDOUT, text=True, timeout=timeout)
     except subprocess.TimeoutExpired:
-        return None
-    tests = []      # (kind, vals)
-    kind = None
+        return []
+    tests = []      # (kind, message, vals)
+    kind = msg = None
     vals = None
     for ln in p.stdout.split("\n"):
-        m0 = re.match(r"^/// Check for `([^`]*)`", ln)
+        m0 = re.match(r"^/// Check for `([^`]*)`: ?(.*)$", ln)
         if m0:
-            kind = m0.group(1)
+            kind, msg = m0.group(1), m0.group(2)
         if "let concrete_vals" in ln:
             vals = []
             continue
@@ -145,12 +155,21 @@ def playback(sc, name, stubbing, timeout=900, cwd=None, tdir="target-kani"):
             if m:
                 vals.append([int(x) for x in m.group(1).split(",") if x.strip()])
             elif "];" in ln:
-                tests.append((kind, vals)); vals = None; kind = None
-    vals = None
-    for k, v in tests:
+                tests.append((kind, msg or "", vals)); vals = None; kind = msg = None
+    return tests
+
+
+def playback(sc, name, stubbing, timeout=900, cwd=None, tdir="target-kani", has_cex=False):
+    """concrete values (one list per kani::any() call, in call order) that make the harness fail, or None"""
+    for k, m, v in _playback_tests(sc, name, stubbing, timeout, cwd, tdir):
         if k != "cover":
-            vals = v; break
-    return vals or None
+            return v
+    if has_cex:
+        # stubbed harnesses: Kani prints playback only for cover properties; the twin harness <name>_cex covers the negated contract
+        for k, m, v in _playback_tests(sc, name + "_cex", stubbing, timeout, cwd, tdir):
+            if k == "cover" and "counterexample" in m:
+                return v
+    return None
 
 
 def native_replay(sc, test, input_hex, log):
@@ -171,8 +190,12 @@ def native_replay(sc, test, input_hex, log):
 def run_harnesses(res, cfg, sc, tier):
     table = load_table()
     want = []
+    demoted = set(d["fn"] for d in getattr(res, "demoted", []))
     for h in table:
-        if res.pid in h["props"] and (tier == "thorough" or h.get("tier", "quick") == "quick"):
+        if res.pid not in h["props"]:
+            continue
+        t = h.get("tier", "quick")
+        if t == "quick" or tier == "thorough" and t != "never" or (demoted & set(h.get("covers", []))):
             want.append(h)
     if not want:
         return
@@ -193,7 +216,7 @@ def run_harnesses(res, cfg, sc, tier):
             tmo = max(h.get("timeout", 600) for h in grp) + 120
             cwd = os.path.join(sc.dir, "ext") if crate == "ext" else None
             tdir = "target-kani-ext" if crate == "ext" else "target-kani"
-            r, timed_out, raw = run_group(sc, [h["name"] for h in grp], stub, jobs, tmo, res.log, cwd=cwd, tdir=tdir)
+            r, timed_out, raw = run_group(sc, [fq_name(h) for h in grp], stub, jobs, tmo, res.log, cwd=cwd, tdir=tdir)
             for h in grp:
                 full = [k for k in r if k.endswith("::" + h["name"])]
                 results[h["name"]] = r[full[0]] if full else {"status": "TIMEOUT" if timed_out else "MISSING", "text": raw[-1500:]}
@@ -201,7 +224,7 @@ def run_harnesses(res, cfg, sc, tier):
     for h in want:
         r = results[h["name"]]
         oid = "kani:" + h["name"]
-        o = {"id": oid, "engine": "kani", "text": h.get("contract", ""), "where": "kani/%s" % h.get("file", ""), "kani_time_s": r.get("time")}
+        o = {"id": oid, "engine": "kani", "text": h.get("contract", ""), "where": "kani/%s" % h.get("file", ""), "kani_time_s": r.get("time"), "covers": h.get("covers", [])}
         st = r["status"]
         cov = r.get("covers")
         if st == "SUCCESSFUL":
@@ -215,8 +238,8 @@ def run_harnesses(res, cfg, sc, tier):
         elif st == "FAILED":
             o["status"] = "failed"
             o["verifier_output"] = r["text"]
-            vals = playback(sc, h["name"], bool(h.get("stubbing")), cwd=(os.path.join(sc.dir, "ext") if h.get("crate") == "ext" else None),
-                            tdir=("target-kani-ext" if h.get("crate") == "ext" else "target-kani"))
+            vals = playback(sc, fq_name(h), bool(h.get("stubbing")), cwd=(os.path.join(sc.dir, "ext") if h.get("crate") == "ext" else None),
+                            tdir=("target-kani-ext" if h.get("crate") == "ext" else "target-kani"), has_cex=bool(h.get("cex")))
             rp = {"harness": h["name"], "concrete_values": vals, "found_input": False}
             if vals is not None:
                 flat = [b for v in vals for b in v]
@@ -227,7 +250,7 @@ def run_harnesses(res, cfg, sc, tier):
                     rp["found_input"] = bool(nr["reproduced"])
                 else:
                     rp["found_input"] = True
-                    rp["note"] = "counterexample produced by CBMC on the real function; no native replay driver for this harness"
+                    rp["note"] = "counterexample produced by CBMC on the real function (values in the order of the harness's kani::any() calls); no native replay driver for this harness"
             o["replay"] = rp
         else:
             o["status"] = "undecided"
@@ -243,7 +266,7 @@ def run_harnesses(res, cfg, sc, tier):
 def warm(sc, log):
     """setup: build the Kani dependency cache by compiling the overlay once."""
     overlay(sc)
-    cmd = ["cargo", "kani", "--harness", "c04_from_le_bytes", "--output-format=terse"]
+    cmd = ["cargo", "kani", "--exact", "--harness", "key::verif_kani::c04_from_le_bytes", "--output-format=terse"]
     t0 = time.time()
     p = subprocess.run(cmd, cwd=sc.repo, env=_env(sc), stdout=subprocess.PIPE, stderr=subprocess.STDOUT, text=True, timeout=1800)
     print("kani warm-up %.1fs rc=%d" % (time.time() - t0, p.returncode))
